@@ -321,8 +321,10 @@ func (r *transport) handleCacheHit(
 		)
 	}
 
-	// Validation is required before reuse: stale + must-revalidate, or unqualified no-cache.
-	needsValidation = (freshness.IsStale && ccResp.MustRevalidate()) ||
+	// Validation is required before reuse: request no-cache, stale + must-revalidate,
+	// or unqualified no-cache on the stored response.
+	needsValidation = ccReq.NoCache() ||
+		(freshness.IsStale && ccResp.MustRevalidate()) ||
 		(hasRespNoCache && !isRespNoCacheQualified)
 
 	if ccReq.OnlyIfCached() {
